@@ -31,6 +31,11 @@ CHECKS = {
    note="Trusted: Coq kernel; hand model Model/Expand.v; path resolution is a parameter of the model (flat names in the check); execution through LLVM/lli. Fixed defects: D3 (hash-order nondeterminism), D20 (segfault when two modules use print!). Print Assumptions: closed.",
    technique="Coq proof for all iteration orders (permutation-parametric model) + differential correspondence + metamorphic execution over module partitions and file orders",
    design="5/C12"),
+ "C13": dict(
+   text="Machine-checked proof (Coq), over the code table regenerated from Error::code and docs/errors.md on every run, that every code the compiler can attach to a diagnostic has a section in the published catalogue, that no two diagnostic kinds share a code, and that error/lint codes lie in the ranges the renderer uses. Locations and determinism are established by exploration, not proof (partial): every diagnostic of mutated corpus files, faulted generated programs, token soup, CRLF and multi-byte variants must lie in its file and start on the reported line, known offenders must be covered by the span, each report is rendered in 4 colour/charset configurations, and every input is compiled in 3 fresh processes whose verdict, diagnostics and IR text must be identical.",
+   note="Trusted: Coq kernel; translator (reading of Error::code and of the headings of docs/errors.md); harness hook verif_primary_location (cfg penne_verif); ariadne is exercised, not modelled. Fixed defects: D8 (CRLF offsets), D13 (undocumented codes), D3 (hash-order IR). Print Assumptions: closed.",
+   technique="Coq proof by computation over translator-generated code/catalogue tables + location invariants and 3-process determinism on generated failing inputs",
+   design="5/C13"),
 }
 
 NOT_YET = {
@@ -54,9 +59,9 @@ def main():
     na = [dict(property_id=p, reason=NOT_YET.get(p, "not yet claimed: the Coq model, theorems and correspondence check for this property are still being built (see DESIGN.md §8); no check is registered until it exists"))
           for p in props if p not in CHECKS]
     m = dict(version=1, setup_cmd="./setup.sh",
-             hooks=dict(guard="penne_verif", enable="RUSTFLAGS=\"--cfg penne_verif\" (set by pv/common.py for the harness build; no hook is currently needed: all first-generation stages and AST types are pub)",
+             hooks=dict(guard="penne_verif", enable="RUSTFLAGS=\"--cfg penne_verif\" (set by pv/common.py for the harness build; one add-only hook: Error::verif_primary_location)",
                         baseline_off_cmd="cd /repo && cargo test --workspace --no-fail-fast --offline",
-                        source_commits=[], add_only=True),
+                        source_commits=["ea463ae"], add_only=True),
              engines=[dict(name="coq-models", path="/verif/coq", serves_properties=[c["property_id"] for c in checks],
                            kind_free_text="Coq 8.16.1 development (models, proofs, property files) + translator + extracted OCaml driver + Rust correspondence harness, orchestrated by ./check")],
              checks=checks, not_applicable=na,
